@@ -328,6 +328,38 @@ def r6_policy(chk, prog):
     chk.require(n >= 4, 'only %d checkSetFilter instantiations' % n)
 
 
+def r7_policy_identity(chk, prog):
+    """the duplicate policy objects identify themselves: the class the factory creates for an enumerator reports
+    exactly that enumerator from policy() - setDuplicatePolicy() relies on it to decide whether the policy has to
+    be switched (a wrong identity silently loses a transition)"""
+    fac = [f for f in prog.functions if f.short == 'createPolicy' and 'DuplicatePolicyFactory' in (f.cls or '')]
+    chk.require(len(fac) == 1, 'DuplicatePolicyFactory::createPolicy not found')
+    f = fac[0]
+    table = {}
+    for n in f.walk():
+        if n.get('k') == 'CaseStmt' and (n.get('cv', n.get('val')) is not None):
+            news = [x for x in walk(n) if x.get('k') == 'CXXNewExpr']
+            if news:
+                table[n.get('cv', n.get('val'))] = (news[0].get('t') or '').rstrip('*').strip()
+    chk.require(len(table) >= 3, 'createPolicy: only %d cases with an allocation found' % len(table))
+    seen = {}
+    for val, cls in sorted(table.items()):
+        ps = [g for g in prog.functions if g.cls == cls and g.short == 'policy' and g.body is not None]
+        chk.require(len(ps) == 1, '%s::policy() not found' % cls)
+        g = ps[0]
+        rets = [x for x in g.walk() if x.get('k') == 'ReturnStmt' and children(x)]
+        vals = set()
+        for r in rets:
+            e = strip_all_casts(children(r)[0])
+            v = e.get('cv', children(r)[0].get('cv'))
+            vals.add(v)
+        chk.check(vals == {val}, 'R7', g.name, 'the policy object created for enumerator %d reports that enumerator '
+                  'from policy() (factory and identification agree)' % val, g.loc(),
+                  'policy() returns %s' % sorted(vals, key=str))
+        seen.setdefault(tuple(sorted(vals, key=str)), []).append(cls)
+    return len(table)
+
+
 def run(chk):
     units = units_matching('library/log/') + [os.path.join(VERIF, 'drivers', 'log.cpp')]
     if chk.tier == 'thorough':
@@ -354,3 +386,5 @@ def run(chk):
     r4_routing(chk, prog)
     r5_names(chk, prog)
     r6_policy(chk, prog)
+    chk.rule('R7', 'duplicate policy objects report the enumerator they were created for', 3)
+    r7_policy_identity(chk, prog)
